@@ -11,8 +11,11 @@ import os, sys, json, time, pickle, hashlib, random, signal, select, traceback, 
 VERIF_DIR = os.path.dirname(os.path.dirname(os.path.abspath(__file__)))
 REPO = os.path.abspath(os.environ.get('VERIF_REPO', '/repo'))
 ATHLIB_DIR = os.path.join(REPO, 'athlib') + os.sep
-EVIDENCE_DIR = os.path.join(VERIF_DIR, 'evidence')
-REPLAY_DIR = os.path.join(VERIF_DIR, 'replays')
+# VERIF_OUT redirects evidence and replay files (used by the sensitivity self-test, so that runs
+# against mutated scratch copies never overwrite the evidence of the real tree)
+OUT_DIR = os.path.abspath(os.environ.get('VERIF_OUT', VERIF_DIR))
+EVIDENCE_DIR = os.path.join(OUT_DIR, 'evidence')
+REPLAY_DIR = os.path.join(OUT_DIR, 'replays')
 KNOWN_FINDINGS = os.path.join(VERIF_DIR, 'KNOWN_FINDINGS.txt')
 
 
